@@ -83,6 +83,7 @@ type schedProc struct {
 	release  chan struct{}
 	openDone chan error
 	db       *wt.Whisper
+	old      *wt.Whisper // the handle of the previous session, closed
 	val      int64
 	early    bool // released into flock ahead of the model's Acquire (negative test)
 	atLocked bool // has arrived at the "locked" gate
@@ -191,8 +192,13 @@ func (e *schedEnv) procLoop(p *schedProc) {
 			c.resp <- schedResp{err: p.db.Sync()}
 		case "close":
 			err := p.db.Close()
-			p.db = nil
+			p.old, p.db = p.db, nil
 			c.resp <- schedResp{err: err}
+		case "close-again":
+			if p.old != nil {
+				p.old.Close() // an error is what is expected; it must have no effect on anybody
+			}
+			c.resp <- schedResp{}
 		}
 	}
 }
@@ -620,6 +626,8 @@ func (e *schedEnv) replay(b *schedBehaviour, raw []byte) bool {
 				}
 			}
 			e.call(p, "close", 0, 0)
+		case "CloseAgain":
+			e.call(p, "close-again", 0, 0)
 		case "FlipHeader":
 			if err := e.setHeader(post.HdrOk, post.Dmg); err != nil {
 				panic(err)
